@@ -169,11 +169,21 @@ class Driver:
         if not os.path.exists(DRIVER):
             raise MachineryError("driver not built: " + DRIVER)
         self.n_lines = 0
+        # private copy of the binary: a concurrent `lake build` of another check replaces the file under
+        # .lake/build/bin while this check is still running
+        import atexit
+        import shutil
+
+        d = os.path.join(VERIF, "work", "drv")
+        os.makedirs(d, exist_ok=True)
+        self.path = os.path.join(d, f"driver-{os.getpid()}-{id(self)}")
+        shutil.copy2(DRIVER, self.path)
+        atexit.register(lambda p=self.path: os.path.exists(p) and os.remove(p))
 
     def run(self, lines):
         """lines: list of token lists or strings (without the RUN prefix handled by caller)."""
         text = "\n".join(l if isinstance(l, str) else " ".join(l) for l in lines) + "\n"
-        p = subprocess.run([DRIVER], input=text, capture_output=True, text=True, timeout=3000,
+        p = subprocess.run([self.path], input=text, capture_output=True, text=True, timeout=3000,
                            preexec_fn=_big_stack)
         if p.returncode != 0:
             raise MachineryError(f"driver crashed (exit {p.returncode}): " + p.stderr[-500:])
